@@ -207,6 +207,11 @@ class Ctx:
             if m2:
                 res["generated"] = res["distinct"] = int(m2.group(1))
         res["violated"] = ("is violated" in tail) or ("Invariant" in tail and "violated" in tail)
+        if not res["violated"] and p.returncode in (12, 13):
+            # TLC's own exit status for a safety / liveness violation; with several workers the lines other workers print after
+            # the verdict can push it out of the tail read above, so look through the whole output as well
+            with open(out, errors="replace") as fo:
+                res["violated"] = any("is violated" in line for line in fo)
         res["ok"] = ("No error has been found" in tail) or (simulate is not None and p.returncode in (0, 124) and "Error:" not in tail)
         if p.returncode == 124 and not simulate:
             raise Inconclusive("TLC timed out after %ss: %s %s" % (timeout, module, cfg))
